@@ -43,10 +43,26 @@ def call(thunk):
         return _norm(e)
 
 
+def after(fn):
+    """Marks a thunk that is not a thread of its own: it runs once all threads have finished, and its
+    result is part of the outcome (damage that shows only in a LATER call)."""
+    fn.after = True
+    return fn
+
+
+def opcodes(fn, *modules):
+    """Marks a thunk whose scenario is to be scheduled at bytecode granularity inside `modules`."""
+    fn.opcode_files = [m.__file__ for m in modules]
+    return fn
+
+
 def run_schedule(thunks, prefix, files, budget=4000):
     """Run the thunks as threads 1..n; follow `prefix`, then let the current
     thread run on while it can.  Returns (results, choices)."""
-    sc = S.Scheduler(budget=budget, trace_files=files)
+    afters = [th for th in thunks if getattr(th, 'after', False)]
+    thunks = [th for th in thunks if not getattr(th, 'after', False)]
+    ofiles = [f for th in thunks for f in getattr(th, 'opcode_files', [])]
+    sc = S.Scheduler(budget=budget * (8 if ofiles else 1), trace_files=files, opcode_files=ofiles)
     saved = S.SCHED
     S.SCHED = sc
     try:
@@ -82,6 +98,9 @@ def run_schedule(thunks, prefix, files, budget=4000):
                 results.append('raise:' + type(st.exc).__name__)
             else:
                 results.append(st.result)
+        S.SCHED = saved
+        for a in afters:
+            results.append(call(a))
         return results, choices
     finally:
         S.SCHED = saved
@@ -108,9 +127,10 @@ def explore_calls(thunks, max_preempt=1, files=None, limit=3000, expected=None, 
         positions = list(range(len(prefix), len(ch)))
         if not prefix and step_budget:
             limit = min(limit, max(20, step_budget // max(1, len(ch))))
-        if not prefix and limit and len(positions) > limit // max(1, len(thunks) - 1):
+        nthr = len([t for t in thunks if not getattr(t, 'after', False)])
+        if not prefix and limit and len(positions) > limit // max(1, nthr - 1):
             # too many preemption points for the budget: evenly spaced sample (stated in the evidence)
-            step = -(-len(positions) * max(1, len(thunks) - 1) // limit)
+            step = -(-len(positions) * max(1, nthr - 1) // limit)
             positions = positions[::step]
             sampled = True
         for i in positions:
@@ -136,6 +156,24 @@ def check(ctx, name, thunks, max_preempt=1, keyprefix='reentrancy'):
                       'two threads, schedule %r: calls returned %r, alone they return %r' % (
                           sched[:60], results, expected))
     return runs
+
+
+def _sock_roundtrip(data):
+    import socket
+    from mido.sockets import SocketPort
+    a, b = socket.socketpair()
+    a.settimeout(5)
+    b.settimeout(5)
+    port = SocketPort('x', 1, conn=a)
+    try:
+        b.sendall(bytes(data))
+        got = []
+        for _ in range(3):
+            got += [m.bytes() for m in port.iter_pending()]
+        return got
+    finally:
+        port.close()
+        b.close()
 
 
 # ---- scenarios (by name, so that a replay file can name them) ------------------
@@ -187,7 +225,44 @@ def scenarios(pid):
         tb = mido.MidiTrack([M('note_on', note=3, time=1), MM('end_of_track', time=4)])
         tc = mido.MidiTrack([M('note_on', note=4, time=0)])
         sc['merge/two-merges'] = [lambda: list(mido.merge_tracks([ta, tb])), lambda: list(mido.merge_tracks([tb, tc]))]
+    if pid in ('C05', 'C10', 'C18'):
+        # two connections read by two threads (each thread makes its own connection: the runs of an
+        # exploration do not share data)
+        sc['sockets/two-connections'] = [lambda: _sock_roundtrip([0x90, 1, 2, 0xf0, 3, 4, 0xf7]),
+                                         lambda: _sock_roundtrip([0x80, 5, 6, 0xe0, 7, 8])]
+    if pid == 'C17':
+        import io
+        utf = mido.MidiFile(charset='utf-8')
+        utf.tracks.append(mido.MidiTrack([MM('text', text='\xe9\u30c6', time=0)]))
+        ub = io.BytesIO()
+        utf.save(file=ub)
+        ub = ub.getvalue()
+
+        def load_utf():
+            return mido.MidiFile(file=io.BytesIO(ub), charset='utf-8').tracks[0][0].text
+
+        def save_utf():
+            b = io.BytesIO()
+            utf.save(file=b)
+            return b.getvalue() == ub
+        # (no two loads or saves at once: the process-wide setting cannot serve two files, see DESIGN;
+        # one thread is inside a call, the other encodes text outside any call - and what counts is
+        # what the library does LATER)
+        # thread 1 uses the charset scope the way a load does (meta_charset is what _load/_save enter)
+        # and then, outside any scope, encodes ASCII text; thread 2 is inside a utf-8 scope meanwhile.
+        # What counts is what the library does LATER, in either charset.
+        from mido.midifiles.meta import meta_charset
+
+        def in_utf8():
+            with meta_charset('utf-8'):
+                return MM.from_bytes([0xff, 1, 5, 0xc3, 0xa9, 0xe3, 0x83, 0x86]).text, MM('text', text='\xe9').bytes()
+        sc['charset/scope-while-encoding-elsewhere'] = [lambda: (in_utf8(), MM('marker', text='x').bytes())[1], lambda: in_utf8(),
+                                                       after(lambda: in_utf8()), after(lambda: load_utf()), after(lambda: save_utf()),
+                                                       after(lambda: MM('text', text='\xe9').bytes())]
     if pid == 'C13':
+        import mido.midifiles.units as units
+        sc['tempo/helpers-bytecode'] = [opcodes(lambda: [mido.tick2second(7, 480, 250000), mido.tick2second(9, 480, 250000)], units),
+                                        lambda: [mido.second2tick(0.5, 96, 600000), mido.tick2second(5, 96, 600000)]]
         sc['tempo/helpers'] = [lambda: mido.tick2second(7, 480, 250000), lambda: mido.second2tick(0.5, 96, 600000),
                                lambda: mido.bpm2tempo(90)]
     return sc
@@ -196,7 +271,7 @@ def scenarios(pid):
 def _job(args):
     pid, name, max_preempt = args
     core.stir()
-    runs, complete, bad = explore_calls(scenarios(pid)[name], max_preempt, limit=150 if max_preempt <= 1 else 3000,
+    runs, complete, bad = explore_calls(scenarios(pid)[name], max_preempt, limit=600 if max_preempt <= 1 else 3000,
                                         step_budget=40000 if max_preempt <= 1 else 0)
     return name, runs, complete, bad[:2]
 
